@@ -258,8 +258,10 @@ class HistogramDensityMethod(BatchDetector):
             self.reset()
 
         X, _, _ = super()._validate_input(X, None, None)
+        # same labels as the reference, so that pd.concat below appends rows
+        # whatever container the reference was given in
         X = pd.DataFrame(
-            X, columns=self._input_cols
+            X, columns=self.reference.columns
         )  # TODO: subsequent operations expect dataframes, not numpy arrays
 
         super().update(X, None, None)
